@@ -4,10 +4,10 @@ from common import *
 from pipeline import *
 import schemagen, sqlitecat
 
-RULES = {"C13": "declared histories = TLC-enumerated pick vectors over (40 column types incl. parameters) x (20 ordered specification lists) x (10 table-level extras: composite / named keys, unique indexes, foreign keys with actions, checks, IF NOT EXISTS) x two follow-up statements out of 28 (ADD / RENAME / DROP COLUMN, RENAME TABLE, CREATE [UNIQUE] INDEX with directions, DROP INDEX, DROP TABLE, ...), pairwise-complete plus simulated walks; the SQLite rendering of each step is executed on the real engine and PRAGMA table_xinfo / index_list / index_xinfo / foreign_key_list / sqlite_master are compared by TLC with the catalogue model stepped on the declarations (SqliteCatalog.tla), incl. type affinity; non-trivial = at least one step inside SQLite's feature set",
+RULES = {"C13": "declared histories = TLC-enumerated pick vectors over (%d column types incl. parameters) x (%d ordered specification lists) x (%d table-level extras: composite / named keys with directions and prefix lengths, unique indexes, foreign keys with actions, checks, options, IF NOT EXISTS) x two follow-up statements out of %d (ADD / RENAME / DROP COLUMN, RENAME TABLE, CREATE [UNIQUE] INDEX with directions / predicates / types, DROP INDEX, DROP TABLE, foreign keys, types, extensions, ...), pairwise-complete plus simulated walks (quick: every single choice and every type x specification pair, a sample of the other pairs);" % (len(schemagen.TYPES), len(schemagen.SPECS), len(schemagen.EXTRAS), len(schemagen.FOLLOW) - 1) + " the SQLite rendering of each step is executed on the real engine and PRAGMA table_xinfo / index_list / index_xinfo / foreign_key_list / sqlite_master are compared by TLC with the catalogue model stepped on the declarations (SqliteCatalog.tla), incl. type affinity; non-trivial = at least one step inside SQLite's feature set",
          "C14": "declared histories as for C13; the MySQL and PostgreSQL renderings of every step (CREATE / ALTER / RENAME / DROP / TRUNCATE TABLE, CREATE / DROP INDEX, foreign keys, PostgreSQL CREATE / ALTER / DROP TYPE) are parsed by the dialect's DDL grammar in TLA+ (EngineDDL) and compared with the declaration: every column once with one type the dialect defines (parameters, UNSIGNED, serial types), each specification once and in order, table-level elements, ALTER actions correctly separated; non-trivial = history with a follow-up statement"}
 
-def collect_schema(pid, tier, replay_path, prefixes, wd, rng, quick_cap=2600, flavour="base"):
+def collect_schema(pid, tier, replay_path, prefixes, wd, rng, quick_cap=3600, flavour="base"):
     states = gen = 0
     if replay_path:
         hists = [r["history"] for r in json.load(open(replay_path))["records"]]
@@ -29,8 +29,11 @@ def collect_schema(pid, tier, replay_path, prefixes, wd, rng, quick_cap=2600, fl
         picks += [c["picks"] for c in sim.json_payloads("CASE")]
         picks = [list(p) for p in dict.fromkeys(tuple(p) for p in picks)]
         if tier == "quick" and len(picks) > quick_cap:
-            single = [p for p in picks if sum(1 for x in p if x > 1) <= 1]
-            picks = single + sample([p for p in picks if sum(1 for x in p if x > 1) > 1], max(1, quick_cap - len(single)), rng)
+            # the quick tier keeps every single choice and every (column type, specification list) pair of the table under test
+            # (slots 1 and 2 of the pick vector) and samples the other combinations
+            keep = [p for p in picks if sum(1 for x in p if x > 1) <= 1 or all(x == 1 for x in p[2:])]
+            rest = [p for p in picks if not (sum(1 for x in p if x > 1) <= 1 or all(x == 1 for x in p[2:]))]
+            picks = keep + sample(rest, max(1, quick_cap - len(keep)), rng)
         hists = [schemagen.assemble(p) for p in picks]
         log("[%s] MC: %d states; %d declared histories" % (pid, states, len(hists)))
     if not replay_path:
